@@ -54,12 +54,32 @@ def case_sig(c):
 
 
 def validate(v, obs_path, rows, workers=8):
-    tr = vlib.tlc("TracePluginRegistry", "TracePluginRegistry.cfg", env={"VERIF_TRACE": obs_path}, cont=True,
+    # pass 1 stops at the first rejected line (the normal, green case visits every line once)
+    tr = vlib.tlc("TracePluginRegistry", "TracePluginRegistry.cfg", env={"VERIF_TRACE": obs_path},
                   workers=workers, heap="4g", deadlock=False, timeout=1500)
     if tr.error:
         raise vlib.MachineryError("TracePluginRegistry failed: %s\n%s" % (tr.kind, tr.out[-3000:]))
-    if tr.distinct != len(rows) + 1:
+    if not tr.violation and tr.distinct != len(rows) + 1:
         raise vlib.MachineryError("TracePluginRegistry visited %d states for %d lines" % (tr.distinct, len(rows)))
+    if not tr.violation:
+        return tr
+    # pass 2 (only when something is rejected): every violated invariant of a bounded sample of the lines - a regression
+    # typically breaks thousands of cases, and TLC's report of all of them is slow and adds nothing to the verdict
+    try:
+        first = int(tr.trace_state.get("l", "0"))
+    except ValueError:
+        first = 0
+    step = max(1, len(rows) // 600)
+    idx = sorted(set(range(0, len(rows), step)) | ({first - 1} if 1 <= first <= len(rows) else set()))
+    all_rows, rows = rows, [rows[i] for i in idx]
+    sample = obs_path + ".sample"
+    vlib.write_ndjson(sample, rows)
+    tr2 = vlib.tlc("TracePluginRegistry", "TracePluginRegistry.cfg", env={"VERIF_TRACE": sample}, cont=True,
+                   workers=workers, heap="4g", deadlock=False, timeout=1500)
+    if tr2.error or not tr2.all_violations:
+        raise vlib.MachineryError("TracePluginRegistry: pass 2 does not reproduce the rejection of line %d\n%s" % (first, tr2.out[-2000:]))
+    tr2.distinct = len(all_rows) + 1
+    tr = tr2
     seen = {}
     for inv, st in tr.all_violations:
         try:
